@@ -383,9 +383,9 @@ def tables_tie(ctx, built):
     """the registered classes and rank tables the translator read from the source text are the ones the interpreter
     holds; the python twin of the spec table equals the Coq one"""
     import re
-    from harness.common import COQ
-    import os
-    txt = open(os.path.join(COQ, "Gen", "GenTables.v")).read()
+    from harness.common import REPO
+    from translate import GENERATORS
+    txt = GENERATORS["GenTables"](REPO)      # the same text stage 1 wrote to Gen/GenTables.v
     m = re.search(r"Definition registered .*?:= \[(.*?)\n\]\.", txt, flags=re.S)
     if not m:
         ctx.add_broken("broken-translator", "GenTables.registered", "not found in the generated file")
@@ -472,10 +472,10 @@ def report_functional(ctx, fails):
 
 def search(ctx, big):
     rng = ctx.rng
-    mult = 5 if big else 1
+    mult = (3 if ctx.tier == "quick" else 5) if big else 1
     obj_classes = [c for c in REAL_CLASSES]
     # object forms: every class appears as the first source of some configurations, all four fields
-    n_obj = ctx.n(6, 60) * mult
+    n_obj = ctx.n(8, 120) * mult
     for cls in obj_classes:
         for i in range(n_obj):
             case = F.gen_obj_case(rng, obj_classes, field=F.FIELDS[i % 4])
@@ -510,7 +510,7 @@ def search(ctx, big):
         if res:
             report(ctx, case, res)
     # functional interface: every registered class (CustomSource has no parameters to hand over: no functional form)
-    n_fun = ctx.n(24, 300) * mult
+    n_fun = ctx.n(40, 600) * mult
     func_fails = []
     for cls in [c for c in REAL_CLASSES if c != "CustomSource"] + ["PolylineSeg"]:
         for i in range(n_fun):
@@ -522,11 +522,36 @@ def search(ctx, big):
                 ctx.bump(f"functional-mode:{m}")
             if res:
                 func_fails.append((case, res))
+    # every single/batch(/ragged) assignment of every keyword, per class
+    import itertools
+    sweep_n = [2] if ctx.tier == "quick" and not big else [1, 2, 5]
+    fi = 0
+    for cls in [c for c in REAL_CLASSES if c != "CustomSource"] + ["PolylineSeg"]:
+        keys = {"Polyline": ["current", "vertices"], "Line": ["current", "vertices"],
+                "PolylineSeg": ["current", "segment_start", "segment_end"]}.get(cls) or list(F.SPEC_RANK[cls])
+        allk = keys + ["position", "orientation", "observers"]
+        choices = [["single", "batch"] + (["ragged"] if (cls, k) in F.RAGGED_OK else []) for k in allk]
+        for combo in itertools.product(*choices):
+            for n in sweep_n:
+                if "ragged" in combo and n < 2:
+                    continue
+                for f in (F.FIELDS if ctx.tier == "thorough" else F.FIELDS[fi % 4]):
+                    case = F.gen_func_case(rng, cls, field=f, n=n, modes=dict(zip(allk, combo)))
+                    res = F.run_case(case)
+                    ctx.case(("func", json.dumps(case, sort_keys=True)), any(m != "single" for m in combo))
+                    ctx.bump("functional-sweep:" + cls)
+                    if res:
+                        func_fails.append((case, res))
+                fi += 1
     report_functional(ctx, func_fails)
     ctx.samples.append({"functional_case": {k: case[k] for k in ("cls", "field", "n", "modes")}})
     # core
+    import magpylib.core as core
+    if set(core.__all__) != set(F.CORE_FUNCTIONS):
+        ctx.add_broken("broken-correspondence", "magpylib.core.__all__",
+                       f"core functions {sorted(core.__all__)} vs covered {sorted(F.CORE_FUNCTIONS)}")
     for cls in F.CORE_CLASSES:
-        for i in range(ctx.n(20, 300) * mult):
+        for i in range(ctx.n(32, 300) * mult):
             case = F.gen_core_case(rng, cls)
             res = F.run_case(case)
             ctx.case(("core", json.dumps(case, sort_keys=True)), True)
@@ -556,6 +581,12 @@ def run(ctx):
     ]
     ok = ctx.regen(["GenTables"])
     built = ctx.build_props() and ok
+    if built:
+        # the reflexive table obligations of this run: one per registered class row of the regenerated GenTables
+        # (C07_rank_tables_meet_spec decides them all by vm_compute)
+        nreg = len(get_registered_sources()) - (1 if "C07Stub" in get_registered_sources() else 0)
+        ctx.obligations += nreg
+        ctx.discharged += nreg
     if ctx.tier == "thorough" and built:
         ctx.coqchk("MV.Props.C07")
     run_guarded(ctx, lambda: tables_tie(ctx, built), "C07 tables tie")
